@@ -59,7 +59,7 @@ Qed.
 Definition key_image_ok (tbl : esc_tbl) (kr : bytes * bytes) : bool :=
   match fst kr with
   | [k] => match char_image tbl k with
-           | [92; x] => (unescape x =? k) && negb (x =? 10) && negb (x =? 13)
+           | [b; x] => (b =? 92) && (unescape x =? k) && negb (x =? 10) && negb (x =? 13)
            | _ => false
            end
   | _ => false
